@@ -92,3 +92,500 @@ Lemma simple_continuous (p : spoly R) (x : R) : continuous (eval_simple p) x.
 Proof.
   apply @ex_derive_continuous. eexists. apply simple_derive.
 Qed.
+
+(* ------------------------------------------------------------------------ *)
+(** * Names: equality test and the (total) lexicographic order *)
+
+Lemma name_eqb_eq (a b : name) : name_eqb a b = true <-> a = b.
+Proof.
+  revert b; induction a as [|x a IH]; intros [|y b]; cbn [name_eqb]; split; intro H;
+    try reflexivity; try discriminate.
+  - apply andb_true_iff in H. destruct H as [H1 H2].
+    apply N.eqb_eq in H1. apply IH in H2. subst. reflexivity.
+  - injection H as -> ->. apply andb_true_iff. split; [apply N.eqb_refl|apply IH; reflexivity].
+Qed.
+
+Lemma name_eqb_refl (a : name) : name_eqb a a = true.
+Proof. apply name_eqb_eq. reflexivity. Qed.
+
+Lemma name_eqb_neq (a b : name) : name_eqb a b = false <-> a <> b.
+Proof.
+  split.
+  - intros H E. apply name_eqb_eq in E. congruence.
+  - intro H. destruct (name_eqb a b) eqn:E; [|reflexivity]. apply name_eqb_eq in E. contradiction.
+Qed.
+
+Lemma name_leb_refl (a : name) : name_leb a a = true.
+Proof.
+  induction a as [|x a IH]; cbn [name_leb]; [reflexivity|].
+  rewrite N.ltb_irrefl. exact IH.
+Qed.
+
+Lemma name_leb_total (a b : name) : name_leb a b = false -> name_leb b a = true.
+Proof.
+  revert b; induction a as [|x a IH]; intros [|y b]; cbn [name_leb]; intro H;
+    try reflexivity; try discriminate.
+  destruct (N.ltb x y) eqn:Exy; [discriminate|].
+  destruct (N.ltb y x) eqn:Eyx; [reflexivity|].
+  apply IH. exact H.
+Qed.
+
+Lemma name_leb_antisym (a b : name) : name_leb a b = true -> name_leb b a = true -> a = b.
+Proof.
+  revert b; induction a as [|x a IH]; intros [|y b]; cbn [name_leb]; intros H1 H2;
+    try reflexivity; try discriminate.
+  destruct (N.ltb x y) eqn:Exy; destruct (N.ltb y x) eqn:Eyx; try discriminate.
+  - apply N.ltb_lt in Exy. apply N.ltb_lt in Eyx. lia.
+  - apply N.ltb_ge in Exy. apply N.ltb_ge in Eyx.
+    assert (x = y) by lia. subst. f_equal. apply IH; assumption.
+Qed.
+
+Lemma name_leb_trans (a b c : name) :
+  name_leb a b = true -> name_leb b c = true -> name_leb a c = true.
+Proof.
+  revert b c; induction a as [|x a IH]; intros [|y b] [|z c]; cbn [name_leb]; intros H1 H2;
+    try reflexivity; try discriminate.
+  destruct (N.ltb x y) eqn:Exy.
+  - apply N.ltb_lt in Exy.
+    destruct (N.ltb y z) eqn:Eyz.
+    + apply N.ltb_lt in Eyz. assert (E : N.ltb x z = true) by (apply N.ltb_lt; lia).
+      rewrite E. reflexivity.
+    + destruct (N.ltb z y) eqn:Ezy; [discriminate|].
+      apply N.ltb_ge in Eyz. apply N.ltb_ge in Ezy.
+      assert (E : N.ltb x z = true) by (apply N.ltb_lt; lia). rewrite E. reflexivity.
+  - destruct (N.ltb y x) eqn:Eyx; [discriminate|].
+    apply N.ltb_ge in Exy. apply N.ltb_ge in Eyx. assert (x = y) by lia. subst y.
+    destruct (N.ltb x z) eqn:Exz; [reflexivity|].
+    destruct (N.ltb z x) eqn:Ezx; [discriminate|].
+    eapply IH; eassumption.
+Qed.
+
+Definition name_le (a b : name) : Prop := name_leb a b = true.
+Definition name_lt (a b : name) : Prop := name_leb b a = false.
+
+Lemma name_lt_le (a b : name) : name_lt a b -> name_le a b.
+Proof. apply name_leb_total. Qed.
+
+Lemma name_lt_irrefl (a : name) : ~ name_lt a a.
+Proof. unfold name_lt. rewrite name_leb_refl. discriminate. Qed.
+
+Lemma name_le_neq_lt (a b : name) : name_le a b -> a <> b -> name_lt a b.
+Proof.
+  unfold name_le, name_lt. intros H N.
+  destruct (name_leb b a) eqn:E; [|reflexivity].
+  exfalso. apply N. apply name_leb_antisym; assumption.
+Qed.
+
+Lemma name_lt_trans (a b c : name) : name_lt a b -> name_lt b c -> name_lt a c.
+Proof.
+  intros H1 H2. apply name_le_neq_lt.
+  - eapply name_leb_trans; apply name_lt_le; eassumption.
+  - intro E. subst c.
+    assert (b = a) by (apply name_leb_antisym; apply name_lt_le; assumption).
+    subst b. exact (name_lt_irrefl a H1).
+Qed.
+
+#[export] Instance name_lt_Transitive : RelationClasses.Transitive name_lt.
+Proof. intros a b c. apply name_lt_trans. Qed.
+
+(* ------------------------------------------------------------------------ *)
+(** * Sorting and de-duplication *)
+
+Lemma insert_name_perm (x : name) (l : list name) : Permutation (insert_name x l) (x :: l).
+Proof.
+  induction l as [|y l IH]; cbn [insert_name]; [apply Permutation_refl|].
+  destruct (name_leb y x).
+  - eapply Permutation_trans; [apply perm_skip; exact IH|apply perm_swap].
+  - apply Permutation_refl.
+Qed.
+
+Lemma sort_names_perm_acc (l : list name) : forall acc,
+  Permutation (fold_left (fun a x => insert_name x a) l acc) (l ++ acc).
+Proof.
+  induction l as [|x l IH]; intro acc; cbn [fold_left app]; [apply Permutation_refl|].
+  eapply Permutation_trans; [apply IH|].
+  eapply Permutation_trans; [apply Permutation_app_head; apply insert_name_perm|].
+  apply Permutation_sym. apply Permutation_middle.
+Qed.
+
+Lemma sort_names_perm (l : list name) : Permutation (sort_names l) l.
+Proof.
+  unfold sort_names. eapply Permutation_trans; [apply sort_names_perm_acc|].
+  rewrite app_nil_r. apply Permutation_refl.
+Qed.
+
+Lemma insert_name_sorted (x : name) (l : list name) :
+  Sorted name_le l -> Sorted name_le (insert_name x l).
+Proof.
+  induction l as [|y l IH]; intro H; cbn [insert_name].
+  - repeat constructor.
+  - destruct (name_leb y x) eqn:E.
+    + inversion H as [|? ? Hs Hh]; subst. constructor; [apply IH; exact Hs|].
+      destruct l as [|z l]; cbn [insert_name].
+      * constructor. exact E.
+      * destruct (name_leb z x); constructor; [|exact E].
+        inversion Hh; subst. assumption.
+    + constructor; [exact H|]. constructor. apply name_leb_total. exact E.
+Qed.
+
+Lemma sort_names_sorted_acc (l : list name) : forall acc,
+  Sorted name_le acc -> Sorted name_le (fold_left (fun a x => insert_name x a) l acc).
+Proof.
+  induction l as [|x l IH]; intros acc H; cbn [fold_left]; [exact H|].
+  apply IH. apply insert_name_sorted. exact H.
+Qed.
+
+Lemma sort_names_sorted (l : list name) : Sorted name_le (sort_names l).
+Proof. apply sort_names_sorted_acc. constructor. Qed.
+
+Lemma sorted_le_nodup_lt (l : list name) : Sorted name_le l -> NoDup l -> Sorted name_lt l.
+Proof.
+  induction l as [|x l IH]; intros Hs Hn; [constructor|].
+  inversion Hs as [|? ? Hs' Hh]; subst. inversion Hn as [|? ? Hx Hn']; subst.
+  constructor; [apply IH; assumption|].
+  destruct l as [|y l]; constructor.
+  inversion Hh; subst. apply name_le_neq_lt; [assumption|].
+  intro E; subst. apply Hx. left. reflexivity.
+Qed.
+
+Lemma sorted_lt_nodup (l : list name) : Sorted name_lt l -> NoDup l.
+Proof.
+  intro H. apply Sorted_StronglySorted in H; [|exact name_lt_Transitive].
+  induction H as [|x l Hs IH Hf]; constructor; [|exact IH].
+  intro Hin. rewrite Forall_forall in Hf. exact (name_lt_irrefl x (Hf x Hin)).
+Qed.
+
+Lemma sort_names_nodup_sorted (l : list name) : NoDup l -> Sorted name_lt (sort_names l).
+Proof.
+  intro H. apply sorted_le_nodup_lt; [apply sort_names_sorted|].
+  eapply Permutation_NoDup; [apply Permutation_sym; apply sort_names_perm|exact H].
+Qed.
+
+Lemma sort_names_in (l : list name) (x : name) : In x (sort_names l) <-> In x l.
+Proof.
+  split; apply Permutation_in; [apply sort_names_perm|apply Permutation_sym; apply sort_names_perm].
+Qed.
+
+Lemma dedup_sorted_head (l : list name) : forall y, exists t, dedup_sorted (y :: l) = y :: t.
+Proof.
+  induction l as [|z l IH]; intro y.
+  - exists []. reflexivity.
+  - cbn [dedup_sorted]. destruct (name_eqb y z) eqn:E.
+    + apply name_eqb_eq in E. subst z. apply IH.
+    + eexists. reflexivity.
+Qed.
+
+Lemma dedup_sorted_in (l : list name) (x : name) : In x (dedup_sorted l) <-> In x l.
+Proof.
+  induction l as [|y l IH]; [reflexivity|].
+  destruct l as [|z l]; [reflexivity|].
+  change (dedup_sorted (y :: z :: l)) with
+    (if name_eqb y z then dedup_sorted (z :: l) else y :: dedup_sorted (z :: l)).
+  destruct (name_eqb y z) eqn:E.
+  - apply name_eqb_eq in E. subst z. rewrite IH. cbn [In]. tauto.
+  - cbn [In] in *. rewrite IH. tauto.
+Qed.
+
+Lemma dedup_sorted_sorted (l : list name) : Sorted name_le l -> Sorted name_lt (dedup_sorted l).
+Proof.
+  induction l as [|y l IH]; intro H; [constructor|].
+  destruct l as [|z l]; [repeat constructor|].
+  change (dedup_sorted (y :: z :: l)) with
+    (if name_eqb y z then dedup_sorted (z :: l) else y :: dedup_sorted (z :: l)).
+  inversion H as [|? ? Hs Hh]; subst. inversion Hh; subst.
+  destruct (name_eqb y z) eqn:E; [apply IH; exact Hs|].
+  constructor; [apply IH; exact Hs|].
+  destruct (dedup_sorted_head l z) as [t ->]. constructor.
+  apply name_le_neq_lt; [assumption|]. apply name_eqb_neq. exact E.
+Qed.
+
+(* keys of a term's variable list *)
+Definition keys (vs : list (name * R)) : list name := map fst vs.
+
+Lemma keys_app (a b : list (name * R)) : keys (a ++ b) = keys a ++ keys b.
+Proof. apply map_app. Qed.
+
+Lemma keys_insert_var (x : name * R) (l : list (name * R)) :
+  keys (insert_var x l) = insert_name (fst x) (keys l).
+Proof.
+  induction l as [|y l IH]; cbn [insert_var insert_name keys map]; [reflexivity|].
+  destruct (name_leb (fst y) (fst x)); cbn [map]; [|reflexivity].
+  f_equal. exact IH.
+Qed.
+
+Lemma keys_sort_vars_acc (l : list (name * R)) : forall acc,
+  keys (fold_left (fun a x => insert_var x a) l acc)
+  = fold_left (fun a x => insert_name x a) (keys l) (keys acc).
+Proof.
+  induction l as [|x l IH]; intro acc; cbn [fold_left keys map]; [reflexivity|].
+  rewrite IH, keys_insert_var. reflexivity.
+Qed.
+
+Lemma keys_sort_vars (l : list (name * R)) : keys (sort_vars l) = sort_names (keys l).
+Proof. unfold sort_vars, sort_names. rewrite keys_sort_vars_acc. reflexivity. Qed.
+
+Lemma insert_var_perm (x : name * R) (l : list (name * R)) : Permutation (insert_var x l) (x :: l).
+Proof.
+  induction l as [|y l IH]; cbn [insert_var]; [apply Permutation_refl|].
+  destruct (name_leb (fst y) (fst x)).
+  - eapply Permutation_trans; [apply perm_skip; exact IH|apply perm_swap].
+  - apply Permutation_refl.
+Qed.
+
+Lemma sort_vars_perm_acc (l : list (name * R)) : forall acc,
+  Permutation (fold_left (fun a x => insert_var x a) l acc) (l ++ acc).
+Proof.
+  induction l as [|x l IH]; intro acc; cbn [fold_left app]; [apply Permutation_refl|].
+  eapply Permutation_trans; [apply IH|].
+  eapply Permutation_trans; [apply Permutation_app_head; apply insert_var_perm|].
+  apply Permutation_sym. apply Permutation_middle.
+Qed.
+
+Lemma sort_vars_perm (l : list (name * R)) : Permutation (sort_vars l) l.
+Proof.
+  unfold sort_vars. eapply Permutation_trans; [apply sort_vars_perm_acc|].
+  rewrite app_nil_r. apply Permutation_refl.
+Qed.
+
+Lemma sort_vars_sorted (l : list (name * R)) : NoDup (keys l) -> Sorted name_lt (keys (sort_vars l)).
+Proof. intro H. rewrite keys_sort_vars. apply sort_names_nodup_sorted. exact H. Qed.
+
+(* ------------------------------------------------------------------------ *)
+(** * Rpowf: the real power on its natural domain, and its derivative *)
+Lemma Int_part_IZR (n : Z) : Int_part (IZR n) = n.
+Proof.
+  unfold Int_part.
+  assert (H : (n + 1)%Z = up (IZR n)).
+  { apply tech_up; rewrite plus_IZR; lra. }
+  rewrite <- H. lia.
+Qed.
+
+Definition is_intR (p : R) : Prop := p = IZR (Int_part p).
+
+Lemma is_intR_IZR n : is_intR (IZR n).
+Proof. unfold is_intR. rewrite Int_part_IZR. reflexivity. Qed.
+
+Lemma Rpowf_int (t : R) (n : Z) : Rpowf t (IZR n) = powerRZ t n.
+Proof.
+  unfold Rpowf. rewrite Int_part_IZR.
+  destruct (Req_EM_T (IZR n) (IZR n)) as [_|N]; [reflexivity|contradiction N; reflexivity].
+Qed.
+
+Lemma Rpowf_nonint (t p : R) : ~ is_intR p -> 0 < t -> Rpowf t p = Rpower t p.
+Proof.
+  intros Hp Ht. unfold Rpowf.
+  destruct (Req_EM_T p (IZR (Int_part p))) as [E|_]; [contradiction|].
+  destruct (Rlt_dec 0 t) as [_|N]; [reflexivity|contradiction].
+Qed.
+
+Lemma Rpowf_0 (t : R) : Rpowf t 0 = 1.
+Proof. exact (Rpowf_int t 0). Qed.
+
+Lemma Rpowf_1 (t : R) : Rpowf t 1 = t.
+Proof. rewrite (Rpowf_int t 1). exact (powerRZ_1 t). Qed.
+
+Lemma powerRZ_derive_pos (q : positive) (x : R) :
+  is_derive (fun t => powerRZ t (Zpos q)) x (IZR (Zpos q) * powerRZ x (Zpos q - 1)).
+Proof.
+  destruct (Pos2Nat.is_succ q) as [k Hk].
+  replace (Zpos q - 1)%Z with (Z.of_nat k) by lia.
+  rewrite <- pow_powerRZ.
+  replace (IZR (Zpos q)) with (INR (S k)) by (rewrite INR_IZR_INZ; f_equal; lia).
+  apply is_derive_ext with (f := fun t => t ^ S k).
+  { intro t. cbn [powerRZ]. rewrite Hk. reflexivity. }
+  apply is_derive_Reals. exact (derivable_pt_lim_pow x (S k)).
+Qed.
+
+Lemma powerRZ_derive_neg (q : positive) (x : R) : x <> 0 ->
+  is_derive (fun t => powerRZ t (Zneg q)) x (IZR (Zneg q) * powerRZ x (Zneg q - 1)).
+Proof.
+  intro Hx.
+  destruct (Pos2Nat.is_succ q) as [k Hk].
+  replace (Zneg q - 1)%Z with (Zneg (q + 1)) by lia.
+  cbn [powerRZ]. rewrite Pos2Nat.inj_add, Hk. change (Pos.to_nat 1) with 1%nat.
+  replace (IZR (Zneg q)) with (- INR (S k)).
+  2:{ rewrite INR_IZR_INZ, <- opp_IZR. f_equal. lia. }
+  apply is_derive_ext with (f := fun t => / t ^ S k).
+  { intro t. reflexivity. }
+  assert (Hp : x ^ S k <> 0) by (apply pow_nonzero; exact Hx).
+  assert (Hk0 : x ^ k <> 0) by (apply pow_nonzero; exact Hx).
+  replace (- INR (S k) * / x ^ (S k + 1)) with (- (INR (S k) * x ^ k) / (x ^ S k) ^ 2).
+  2:{ replace (S k + 1)%nat with (S (S k)) by lia. rewrite <- !tech_pow_Rmult. field. split; assumption. }
+  apply is_derive_inv; [|exact Hp].
+  apply is_derive_Reals. exact (derivable_pt_lim_pow x (S k)).
+Qed.
+
+Definition dom_pow (p x : R) : Prop := (is_intR p /\ (0 <= p \/ x <> 0)) \/ 0 < x.
+
+Lemma is_intR_minus1 (p : R) : is_intR (p - 1) -> is_intR p.
+Proof.
+  unfold is_intR. intro H.
+  assert (E : p = IZR (Int_part (p - 1) + 1)) by (rewrite plus_IZR; lra).
+  rewrite E at 2. rewrite Int_part_IZR. exact E.
+Qed.
+
+Lemma Rpowf_derive (p x : R) : p <> 0 -> dom_pow p x ->
+  is_derive (fun t => Rpowf t p) x (p * Rpowf x (p - 1)).
+Proof.
+  intros Hp0 Hd.
+  destruct (Req_EM_T p (IZR (Int_part p))) as [E|NE].
+  - (* integral exponent *)
+    set (n := Int_part p) in *.
+    assert (Hx : (0 <= n)%Z \/ x <> 0).
+    { destruct Hd as [[_ [H|H]]|H].
+      - left. apply le_IZR. rewrite <- E. exact H.
+      - right. exact H.
+      - right. lra. }
+    rewrite E. replace (IZR n - 1) with (IZR (n - 1)) by (rewrite minus_IZR; reflexivity).
+    rewrite Rpowf_int.
+    apply is_derive_ext with (f := fun t => powerRZ t n).
+    { intro t. symmetry. apply Rpowf_int. }
+    destruct n as [|q|q].
+    + exfalso. apply Hp0. rewrite E. reflexivity.
+    + apply powerRZ_derive_pos.
+    + apply powerRZ_derive_neg. destruct Hx as [H|H]; [lia|exact H].
+  - (* non-integral exponent: x > 0 *)
+    assert (Hx : 0 < x).
+    { destruct Hd as [[H _]|H]; [contradiction|exact H]. }
+    assert (NE1 : ~ is_intR (p - 1)) by (intro H; apply NE; apply is_intR_minus1; exact H).
+    rewrite (Rpowf_nonint x (p - 1) NE1 Hx).
+    apply is_derive_ext_loc with (f := fun t => Rpower t p).
+    + exists (mkposreal x Hx). intros t Ht.
+      symmetry. apply Rpowf_nonint; [exact NE|].
+      unfold ball in Ht; cbn in Ht. unfold AbsRing_ball, abs, minus, plus, opp in Ht; cbn in Ht.
+      apply Rabs_def2 in Ht. lra.
+    + apply is_derive_Reals. apply derivable_pt_lim_power. exact Hx.
+Qed.
+
+(* ------------------------------------------------------------------------ *)
+(** * Environments and the value of a term list *)
+
+Definition upd (e : env R) (v : name) (t : R) : env R := e ++ [(v, t)].
+
+Lemma lookup_upd_same (e : env R) v t : lookup v (upd e v t) = Some t.
+Proof.
+  unfold upd. induction e as [|[k y] e IH]; cbn [app lookup].
+  - rewrite name_eqb_refl. reflexivity.
+  - rewrite IH. reflexivity.
+Qed.
+
+Lemma lookup_upd_other (e : env R) v t k : k <> v -> lookup k (upd e v t) = lookup k e.
+Proof.
+  intro H. unfold upd. induction e as [|[k' y] e IH]; cbn [app lookup].
+  - assert (E : name_eqb v k = false) by (apply name_eqb_neq; congruence).
+    rewrite E. reflexivity.
+  - rewrite IH. reflexivity.
+Qed.
+
+Definition getv (k : name) (e : env R) : R := match lookup k e with Some y => y | None => 0 end.
+
+Lemma getv_upd_same e v t : getv v (upd e v t) = t.
+Proof. unfold getv. rewrite lookup_upd_same. reflexivity. Qed.
+
+Lemma getv_upd_other e v t k : k <> v -> getv k (upd e v t) = getv k e.
+Proof. intro H. unfold getv. rewrite lookup_upd_other by exact H. reflexivity. Qed.
+
+Fixpoint vars_prod (vs : list (name * R)) (e : env R) : R :=
+  match vs with
+  | [] => 1
+  | (k, p) :: vs' => Rpowf (getv k e) p * vars_prod vs' e
+  end.
+
+Definition vars_bound (vs : list (name * R)) (e : env R) : Prop :=
+  forall k, In k (keys vs) -> lookup k e <> None.
+
+Lemma eval_term_vars_ok (vs : list (name * R)) (e : env R) : forall acc,
+  vars_bound vs e -> eval_term_vars acc vs e = Ok (acc * vars_prod vs e).
+Proof.
+  induction vs as [|[k p] vs IH]; intros acc Hb; cbn [eval_term_vars vars_prod].
+  - f_equal. ring.
+  - assert (Hk : lookup k e <> None) by (apply Hb; left; reflexivity).
+    unfold getv. destruct (lookup k e) as [y|]; [|contradiction].
+    rewrite IH.
+    + cbn [nmul npowf RNum]. f_equal. ring.
+    + intros k' Hk'. apply Hb. right. exact Hk'.
+Qed.
+
+Lemma vars_prod_app (a b : list (name * R)) e : vars_prod (a ++ b) e = vars_prod a e * vars_prod b e.
+Proof.
+  induction a as [|[k p] a IH]; cbn [app vars_prod]; [ring|]. rewrite IH. ring.
+Qed.
+
+Lemma vars_prod_perm (a b : list (name * R)) e : Permutation a b -> vars_prod a e = vars_prod b e.
+Proof.
+  induction 1 as [|[k p] a b _ IH|[k p] [k' p'] a|a b c _ IH1 _ IH2]; cbn [vars_prod].
+  - reflexivity.
+  - rewrite IH. reflexivity.
+  - ring.
+  - rewrite IH1. exact IH2.
+Qed.
+
+Lemma vars_prod_upd_absent (vs : list (name * R)) e v t :
+  ~ In v (keys vs) -> vars_prod vs (upd e v t) = vars_prod vs e.
+Proof.
+  induction vs as [|[k p] vs IH]; intro H; cbn [vars_prod]; [reflexivity|].
+  cbn [keys map fst In] in H.
+  rewrite getv_upd_other by (intro E; apply H; left; exact E).
+  rewrite IH by (intro Hin; apply H; right; exact Hin). reflexivity.
+Qed.
+
+Definition term_val (t : term R) (e : env R) : R := t_coef t * vars_prod (t_vars t) e.
+
+Fixpoint terms_sum (ts : list (term R)) (e : env R) : R :=
+  match ts with
+  | [] => 0
+  | t :: ts' => term_val t e + terms_sum ts' e
+  end.
+
+Definition terms_bound (ts : list (term R)) (e : env R) : Prop :=
+  forall t, In t ts -> vars_bound (t_vars t) e.
+
+Lemma eval_inter_from_ok (ts : list (term R)) (e : env R) : forall acc,
+  terms_bound ts e -> eval_inter_from acc ts e = Ok (acc + terms_sum ts e).
+Proof.
+  induction ts as [|t ts IH]; intros acc Hb; cbn [eval_inter_from terms_sum].
+  - f_equal. ring.
+  - rewrite eval_term_vars_ok by (apply Hb; left; reflexivity).
+    rewrite IH by (intros t' Ht'; apply Hb; right; exact Ht').
+    cbn [nadd RNum]. unfold term_val. f_equal. ring.
+Qed.
+
+Lemma eval_inter_ok (ts : list (term R)) (e : env R) :
+  terms_bound ts e -> eval_inter ts e = Ok (terms_sum ts e).
+Proof.
+  intro H. unfold eval_inter. rewrite eval_inter_from_ok by exact H.
+  cbn [n0 RNum]. f_equal. ring.
+Qed.
+
+(* boundness after an update does not depend on the value *)
+Lemma lookup_upd_bound e v t t' k : lookup k (upd e v t) <> None -> lookup k (upd e v t') <> None.
+Proof.
+  destruct (name_eqb k v) eqn:E.
+  - apply name_eqb_eq in E. subst k. rewrite lookup_upd_same. discriminate.
+  - apply name_eqb_neq in E. rewrite !lookup_upd_other by exact E. exact (fun H => H).
+Qed.
+
+Lemma terms_bound_upd ts e v t t' : terms_bound ts (upd e v t) -> terms_bound ts (upd e v t').
+Proof. intros H tm Htm k Hk. eapply lookup_upd_bound. exact (H tm Htm k Hk). Qed.
+
+(* sorting the variables of each term changes neither boundness nor value *)
+Definition sort_term (t : term R) : term R := {| t_coef := t_coef t; t_vars := sort_vars (t_vars t) |}.
+
+Lemma sort_poly_terms (p : ipoly R) : i_terms (sort_poly p) = map sort_term (i_terms p).
+Proof. reflexivity. Qed.
+
+Lemma keys_perm (a b : list (name * R)) : Permutation a b -> Permutation (keys a) (keys b).
+Proof. apply Permutation_map. Qed.
+
+Lemma term_val_sort t e : term_val (sort_term t) e = term_val t e.
+Proof. unfold term_val, sort_term. cbn [t_coef t_vars]. f_equal. apply vars_prod_perm. apply sort_vars_perm. Qed.
+
+Lemma terms_sum_sort ts e : terms_sum (map sort_term ts) e = terms_sum ts e.
+Proof. induction ts as [|t ts IH]; cbn [map terms_sum]; [reflexivity|]. rewrite IH, term_val_sort. reflexivity. Qed.
+
+Lemma terms_bound_sort ts e : terms_bound ts e -> terms_bound (map sort_term ts) e.
+Proof.
+  intros H t Ht k Hk. apply in_map_iff in Ht. destruct Ht as [t0 [<- Ht0]].
+  apply (H t0 Ht0). cbn [sort_term t_vars] in Hk.
+  eapply Permutation_in; [apply keys_perm; apply sort_vars_perm|exact Hk].
+Qed.
